@@ -2,3 +2,4 @@
 import ReuseVerif.Theorems.C12
 import ReuseVerif.Theorems.C05
 import ReuseVerif.Theorems.C17
+import ReuseVerif.Theorems.C18
